@@ -75,6 +75,7 @@ def scheme_rules(ctx):
     schemes.hazard_eras_rules(ctx)
     schemes.thread_block_list_rules(ctx)
     schemes.epoch_rules(ctx)
+    schemes.epoch_adopt_resync(ctx)
     schemes.qsbr_rules(ctx)
     schemes.stamp_rules(ctx)
     schemes.lfrc_rules(ctx)
@@ -85,7 +86,7 @@ def scheme_rules(ctx):
 def C01(ctx):
     ctx.only = ("K1.", "K4.reclaim-after-unlink", "HP.protocol", "HP.active-gather", "HP.delete-licensed", "HP.validate-after-protect",
                 "HE.protocol", "HE.active-gather", "HE.delete-licensed", "HE.era-after-load", "HE.era-stable", "HE.exception-safety", "HE.retire", "HE.shared-slot",
-                "EBR.protocol", "EBR.orphans", "EBR.constants", "EBR.epoch-slots", "EBR.activity", "EBR.scan-cursor", "QSBR.protocol", "QSBR.constants", "QSBR.activity",
+                "EBR.protocol", "EBR.orphans", "EBR.constants", "EBR.epoch-slots", "EBR.activity", "EBR.scan-cursor", "EBR.adopt-resync", "QSBR.protocol", "QSBR.constants", "QSBR.activity",
                 "STAMP.protocol", "STAMP.help-pending-push", "STAMP.delete-licensed", "LFRC.", "K3.", "K13.", "GUARD.")
     k1_rules(ctx, "C01")
     reclaim.reclaim_after_unlink(ctx, [".hpp"])
@@ -228,6 +229,7 @@ def C10(ctx):
     vyukov.pool_locking(ctx)
     vyukov.grow_protocol(ctx)
     vyukov.hash_agreement(ctx)
+    vyukov.extension_only_when_full(ctx)
     ctx.only_skip = ("VHM.iterator-lock",)
     vyukov.iterator_rules(ctx)
     vyukov.cursor_prev_pairing(ctx)
@@ -257,7 +259,7 @@ def C11(ctx):
 
 def C17(ctx):
     ctx.only = ("K1.", "TBL.", "HP.thread-exit", "HP.block-init", "HP.active-gather", "HE.thread-exit", "HE.block-init", "HE.active-gather",
-                "EBR.thread-exit", "EBR.block-init", "EBR.activity", "EBR.scan-cursor", "EBR.orphans", "EBR.epoch-slots", "QSBR.thread-exit", "QSBR.block-init", "QSBR.activity",
+                "EBR.thread-exit", "EBR.block-init", "EBR.activity", "EBR.scan-cursor", "EBR.orphans", "EBR.epoch-slots", "EBR.adopt-resync", "QSBR.thread-exit", "QSBR.block-init", "QSBR.activity",
                 "STAMP.thread-exit", "LFRC.thread-exit", "LIST.",
                 # safety / conservation across thread exit: the scans adopt abandoned nodes before gathering, orphans are re-filed, ...
                 "HP.protocol", "HE.protocol", "EBR.protocol", "QSBR.protocol", "STAMP.protocol", "STAMP.handback-chain")
@@ -287,6 +289,8 @@ def C12(ctx):
     deque.rules(ctx)
     deque.stable_slot(ctx)
     deque.growth_bound(ctx)
+    deque.index_width(ctx)
+    deque.grow_exception_safety(ctx)
     return ("Decides the structural half of the Chase-Lev deque: publish order, decrement/restore-or-commit pairing in try_pop, last-item CAS, "
             "thief read-before-CAS, mask kind discipline and (by exhaustive finite evaluation of the loop-free index arithmetic) that grow() re-indexes "
             "the live range with the same mapping as get_entry from every top offset; memory orders incl. the four seq_cst sites.",
